@@ -2,7 +2,10 @@
 
 package raft
 
-import "time"
+import (
+	"strings"
+	"time"
+)
 
 // finalShutdown (C15): from an explored state, Shutdown is executed on every
 // running node; it must return, every pending task must complete exactly once
@@ -119,13 +122,13 @@ func infoScenarios(tier string) []*simScenario {
 	}
 	var out []*simScenario
 	for _, b := range []*simScenario{
+		scenMember(memberSeedByName("phantom-config"), dev, 1, 0, false, nil, 0),
 		scenRepl(replSeedByName("divergent"), dev, false, 1, 1, 4),
 		scenRepl(replSeedByName("lagging"), dev+1, false, 1, 1, 4),
 		scenSnap(snapSeeds[snapSeedIndex("lagging")], dev+1, false, true, 2),
 		scenSnap(snapSeeds[snapSeedIndex("lagging")], dev, true, false, 1),
 		scenSnap(snapSeeds[snapSeedIndex("full")], dev+1, false, true, 2),
 		scenMember(memberSeedByName("3v"), dev+1, 2, 0, true, nil, 1),
-		scenMember(memberSeedByName("phantom-config"), dev, 1, 0, false, nil, 0),
 	} {
 		sc := cloneScenario(b)
 		sc.Name = "info-" + b.Name
@@ -134,7 +137,7 @@ func infoScenarios(tier string) []*simScenario {
 		sc.Menu.ClientNodes = nil
 		sc.Menu.Dups = false
 		sc.Menu.Cuts = false
-		sc.Menu.Timeouts = b.Menu.OrderCost
+		sc.Menu.Timeouts = b.Menu.OrderCost || strings.Contains(b.Name, "phantom-config")
 		if b.Menu.OrderCost || dev+1 == sc.MaxDev {
 			sc.Menu.OrderCost = true
 		}
